@@ -1025,7 +1025,11 @@ pub fn skip_option<T: Read>(reader: &mut T) -> io::Result<()> {
     #[cfg(feature = "verif-probes")]
     crate::verif::hit(crate::verif::probe::SKIP_OPTION);
     if elements > 0 {
-        io::copy(&mut reader.by_ref().take((elements * bits::WORD_BYTES) as u64), &mut io::sink())?;
+        let bytes = (elements * bits::WORD_BYTES) as u64;
+        let copied = io::copy(&mut reader.by_ref().take(bytes), &mut io::sink())?;
+        if copied != bytes {
+            return Err(Error::new(ErrorKind::UnexpectedEof, "The optional structure is truncated"));
+        }
     }
     Ok(())
 }
